@@ -159,6 +159,13 @@ class HTMLParser(object):
 
         self.framesetOK = True
 
+        # state kept by the (long-lived) phase objects themselves
+        inBody = self.phases["inBody"]
+        inBody.processSpaceCharacters = inBody.processSpaceCharactersNonPre
+        inTableText = self.phases["inTableText"]
+        inTableText.originalPhase = None
+        inTableText.characterTokens = []
+
     @property
     def documentEncoding(self):
         """Name of the character encoding that was used to decode the input stream, or
